@@ -6,7 +6,8 @@
      an unsigned decimal literal up to 2^64-1 prints as UInt64_n, a negated one down to -2^63 as Int64_-n
      (with -0 as UInt64_0), anything larger and every decimal/exponent literal as Float64_ followed by the
      shortest round-tripping digits in ClickHouse's fixed/exponent style, hex and binary integer literals by
-     value; strings by ClickHouse's two-level escaping; arrays as Array_[e1, e2, ...], tuples as Tuple_(e1, ...).
+     value (so do octal ones, and every spelling with an upper-case prefix, leading zeros or '_' separators:
+     [CRad]); strings by ClickHouse's two-level escaping; arrays as Array_[e1, e2, ...], tuples as Tuple_(e1, ...).
 
    Floats: WHICH digits are the shortest round-tripping ones is the oracle's business (the two functions of
    the Section, same contract as in LiteralModel.v); the spec fixes how digits d1..dk and a decimal exponent e
@@ -50,6 +51,62 @@ Fixpoint hex_aux (fuel : nat) (n : N) (acc : list N) : list N :=
   end.
 Definition hex (n : N) : list N := hex_aux (S (N.to_nat (N.log2 n))) n [].
 
+(* octal numeral of n *)
+Fixpoint oct_aux (fuel : nat) (n : N) (acc : list N) : list N :=
+  match fuel with
+  | O => acc
+  | S f =>
+      let acc' := (48 + n mod 8) :: acc in
+      if n / 8 =? 0 then acc' else oct_aux f (n / 8) acc'
+  end.
+Definition oct (n : N) : list N := oct_aux (S (N.to_nat (N.log2 n))) n [].
+
+(* ---------- prefixed integer spellings in general ---------- *)
+
+(* 0x / 0b / 0o (or 0X / 0B / 0O) followed by digits of the radix in either letter case, with '_' separators:
+   leading zeros, "0xFF_ff", "0b_1" ... *)
+Inductive radix := RHex | RBin | ROct.
+
+Definition radix_base (r : radix) : N := match r with RHex => 16 | RBin => 2 | ROct => 8 end.
+
+Definition radix_letter (r : radix) (up : bool) : N :=
+  match r with
+  | RHex => if up then 88 else 120
+  | RBin => if up then 66 else 98
+  | ROct => if up then 79 else 111
+  end.
+
+(* the value of a digit character of the radix *)
+Definition rdigit (r : radix) (c : N) : option N :=
+  match r with
+  | RHex => if (48 <=? c) && (c <=? 57) then Some (c - 48)
+            else if (97 <=? c) && (c <=? 102) then Some (c - 87)
+            else if (65 <=? c) && (c <=? 70) then Some (c - 55)
+            else None
+  | RBin => if (c =? 48) || (c =? 49) then Some (c - 48) else None
+  | ROct => if (48 <=? c) && (c <=? 55) then Some (c - 48) else None
+  end.
+Definition is_rdigit (r : radix) (c : N) : bool := match rdigit r c with Some _ => true | None => false end.
+
+(* the value of the digits, separators skipped *)
+Fixpoint rad_value (r : radix) (ds : list N) (acc : N) : N :=
+  match ds with
+  | [] => acc
+  | c :: ds' => rad_value r ds' (match rdigit r c with Some d => acc * radix_base r + d | None => acc end)
+  end.
+
+(* well-formed: only digits and '_', every '_' directly followed by a digit, the last character a digit (so there
+   is at least one digit, no "__", no trailing '_'; a '_' directly after the prefix is allowed, as in Go) *)
+Fixpoint rad_ok (r : radix) (ds : list N) : bool :=
+  match ds with
+  | [] => false
+  | c :: ds' =>
+      match ds' with
+      | [] => is_rdigit r c
+      | c2 :: _ => (is_rdigit r c || ((c =? 95) && is_rdigit r c2)) && rad_ok r ds'
+      end
+  end.
+
 (* ---------- floats ---------- *)
 
 Definition nonzero_digits (ds : list N) : bool := existsb (fun d => negb (d =? 48)) ds.
@@ -87,6 +144,7 @@ Inductive cval :=
 | CNeg (n : N)                          (* - decimal integer literal *)
 | CHex (n : N)                          (* 0x... *)
 | CBin (n : N)                          (* 0b... *)
+| CRad (r : radix) (up : bool) (ds : list N)   (* 0x / 0b / 0o (upper-case letter when [up]) ++ ds: any digits and '_' *)
 | CFlt (neg : bool) (text : list N)     (* decimal / exponent literal with this source text, possibly negated *)
 | CStr (v : list N)                     (* string literal with this VALUE *)
 | CArr (l : list cval)
@@ -109,6 +167,7 @@ Fixpoint src (t : cval) : list N :=
   | CNeg n => 45 :: dec n
   | CHex n => [48; 120] ++ hex n
   | CBin n => [48; 98] ++ bin n
+  | CRad r up ds => [48; radix_letter r up] ++ ds
   | CFlt neg text => (if neg then [45] else []) ++ text
   | CStr v => quote v
   | CArr l => [91] ++ sjoin s_comma_sp (map src l) ++ [93]
@@ -123,6 +182,7 @@ Fixpoint toks (t : cval) : list tk :=
   | CNeg n => [(T_MINUS, [45]); (T_NUMBER, dec n)]
   | CHex n => [(T_NUMBER, [48; 120] ++ hex n)]
   | CBin n => [(T_NUMBER, [48; 98] ++ bin n)]
+  | CRad r up ds => [(T_NUMBER, [48; radix_letter r up] ++ ds)]
   | CFlt neg text => (if neg then [(T_MINUS, [45])] else []) ++ [(T_NUMBER, text)]
   | CStr v => [(T_STRING, v)]
   | CArr l => [(T_LBRACKET, [91])] ++ sjoin [tk_comma] (map toks l) ++ [(T_RBRACKET, [93])]
@@ -140,6 +200,9 @@ Definition float_of_text (text : list N) : fval :=
 Fixpoint canon (t : cval) : list N :=
   match t with
   | CNat n | CHex n | CBin n =>
+      if n <? p64 then s_UInt64 ++ dec n else s_Float64 ++ canon_float (int_to_float n)
+  | CRad r _ ds =>
+      let n := rad_value r ds 0 in
       if n <? p64 then s_UInt64 ++ dec n else s_Float64 ++ canon_float (int_to_float n)
   | CNeg n =>
       if n =? 0 then s_UInt64 ++ dec 0
@@ -165,12 +228,11 @@ Definition float_text (text : list N) : bool :=
 Definition is_ctup (t : cval) : bool := match t with CTup _ => true | _ => false end.
 Definition is_carr (t : cval) : bool := match t with CArr _ => true | _ => false end.
 
-(* scalars.  Binary literals are restricted to < 2^64 (the code prints larger ones as strings, LiteralProof:
-   bin_big_refuted); negated integers of every size are fine at every depth *)
+(* scalars: integers of every size in every spelling, negated decimal integers of every size, at every depth *)
 Definition scalar_ok (t : cval) : bool :=
   match t with
-  | CNat _ | CHex _ | CNeg _ => true
-  | CBin n => n <? p64
+  | CNat _ | CHex _ | CBin _ | CNeg _ => true
+  | CRad r _ ds => rad_ok r ds
   | CFlt _ text => float_text text
   | CStr v => bytes_okb v
   | _ => false
